@@ -84,16 +84,31 @@ def setitem (m : ODict) (E : Externals) (cfg : Cfg) (k v : PyVal) : ODict × Out
 def delitem (m : ODict) (E : Externals) (cfg : Cfg) (k : PyVal) : ODict × Out :=
   if m.has (keyOf E cfg k) then (m.del (keyOf E cfg k), .none) else (m, .exc "KeyError")
 
+/-- `add`: bind the value unless the key is bound (`False` then).  A value that cannot be written,
+or a key or value cell the database cannot bind, raises UnicodeEncodeError and changes nothing. -/
+def add (m : ODict) (E : Externals) (cfg : Cfg) (k v : PyVal) : ODict × Out :=
+  match place E cfg.disk cfg.minFileSize v false with
+  | .error _ => (m, .exc "UnicodeEncodeError")
+  | .ok p =>
+    let e := entryOf p none .null
+    if !bindable (keyOf E cfg k).1 then (m, .exc "UnicodeEncodeError")
+    else if m.has (keyOf E cfg k) then (m, .bool false)
+    else if bindable e.val then (m.set (keyOf E cfg k) e, .bool true)
+    else (m, .exc "UnicodeEncodeError")
+
 /-- `index.setdefault(key, default)`: the value of the key if there is one; otherwise — as one
-transaction — bind the default unless the key is bound, and look again; with still nothing to
-return the transaction is rolled back and KeyError raised -/
+transaction — `add` the default and look again.  An `add` that raises propagates and the
+dictionary is unchanged; with still nothing to return the transaction is rolled back and KeyError
+raised -/
 def setdefault (m : ODict) (E : Externals) (cfg : Cfg) (k v : PyVal) : ODict × Out :=
   match look m E cfg (keyOf E cfg k) with
   | .default =>
-    let m' := if m.has (keyOf E cfg k) then m else (setitem m E cfg k v).1
-    match look m' E cfg (keyOf E cfg k) with
-    | .default => (m, .exc "KeyError")
-    | o => (m', o)
+    match add m E cfg k v with
+    | (_, .exc e) => (m, .exc e)
+    | (m', _) =>
+      match look m' E cfg (keyOf E cfg k) with
+      | .default => (m, .exc "KeyError")
+      | o => (m', o)
   | o => (m, o)
 
 /-- `index.pop(key[, default])`: remove the binding and return its value; for an unbound key the
